@@ -92,6 +92,7 @@ func genCase(t *rapid.T) Case {
 		}
 		c.Queries = append(c.Queries, qs)
 	}
+	c.H.Rename = gen.MaybeRename(t, c.H.Schema)
 	return c
 }
 
